@@ -79,7 +79,7 @@ def main():
         rc, out = sh('git -C %s worktree add --detach %s HEAD' % (REPO, WT))
         assert rc == 0, out
         try:
-            flt = ' '.join(tests[:1])
+            flt = os.path.commonprefix(tests) if len(tests) > 1 and len(os.path.commonprefix(tests)) >= 6 else ' '.join(tests[:1])
             democmd = 'cargo test --lib --offline ' + flt
             if '--demo-cmd' in sys.argv:
                 democmd = sys.argv[sys.argv.index('--demo-cmd') + 1].replace('+', ' ')   # '+' stands for a space (queue lines are split on blanks)
